@@ -155,10 +155,15 @@ CHECKS = {
          "and three direct oracles (schedules agree, re-run is a no-op, values equal an independent dataflow evaluation) run on the real simulator. A second "
          "stream ties the same model to LIBRARY code: harness/common/pymtl2rtl.py derives the Model/Rtl form of real components (stdlib arbiters, crossbars, encoders, muxes, "
          "registers, register files, three queue families, ROMs, the example checksum units and the whole example ProcRTL: 75+ designs) by symbolic execution of their update "
-         "blocks on every run, and Lean simulation, PyMTL simulation under several pass groups / forced orders and an independent evaluation must agree on every signal.",
+         "blocks on every run, and Lean simulation, PyMTL simulation under several pass groups / forced orders and an independent evaluation must agree on every signal. Scheduling algorithms inside the model: Model/Mamba.lean models Mamba2020Pass (sorted-list insert, the pop-front / "
+         "pop-back main loop over the condensation, meta-block packing at all flush sites, SCC packing, update_ff packing) and HeuristicTopoPass; Props/C01m.lean proves for every "
+         "input that no block is lost or duplicated, every condensation edge goes forward, the packing is a segmentation of the order and the loops terminate independently of fuel "
+         "(mamba_topo, mamba_complete, mamba_segmentation, packSCC_flatten, packFF_flatten, heu_topo, heu_complete, ...); tied to the code by comparing the real segmentation with the "
+         "model exactly on 250 designs per quick run aimed at every flush site. A reset stream runs sim_reset() under both reset_active_high values in all five pass groups against "
+         "the dataflow reference.",
          "Trusted: Lean kernel + standard axioms; Model/Rtl.lean (bit-vector signals, assignment-list blocks, nets as blocks, if/else presented as mux by the "
-         "harness generator); driver table glue; generator language = Bits signals, constant slices, one level of children, nets. Scheduling passes are not "
-         "modelled as algorithms; their outputs are checked and executed.",
+         "harness generator); driver table glue; generator language = Bits signals, constant slices, one level of children, nets. SimpleSchedulePass (Kahn), Mamba2020Pass and "
+         "HeuristicTopoPass are modelled as algorithms; Kosaraju SCC and DynamicSchedulePass outputs are checked and executed (SCC model in progress).",
          "Lean 4 proof (abstract scheduling theory + verified schedule checker) + differential correspondence check", "DESIGN.md §5 C01"),
  'C02': ("Lean 4 theorems: the overlap test is exact at bit level (overlap_spec, rngsOverlap_spec), the schedule checker accepts exactly the orders in which "
          "every writer of a bit precedes every reader of it (topo_iff_writer_before_reader), and Kahn's algorithm with an arbitrary tie-break is duplicate-free, "
@@ -168,7 +173,13 @@ CHECKS = {
          "search, the four exclusions); Props/C02m.lean proves the added block pairs exactly characterised (process_exact), sound, complete for M<M / U<M / M<U through == classes "
          "(complete_MM/UM/MU, complete_fwd/bwd) and respected by any topological order incl. Kahn's (schedule_kahn); tied to the code by comparing model and real added pairs on stdlib "
          "queue chains, MagicMemoryCL and generated method-port designs, plus schedule position and run-time call order. Translator tie: tools/py2lean_overlap.py regenerates "
-         "Gen/OverlapGen.lean from Connectable.py _overlap/slice_overlap each run and Props/C02Gen.lean proves it equal to Rng.overlap. PARTIAL: OpenLoopCLPass is not modelled.",
+         "Gen/OverlapGen.lean from Connectable.py _overlap/slice_overlap each run and Props/C02Gen.lean proves it equal to Rng.overlap. Value constraints: Model/GenDag.lean models "
+         "GenDAGPass._process_value_constraints (explicit RD/WR expansion, the reader-side walk over parents and overlapping sibling slices, the writer-side walk over parents, "
+         "update_ff writers excluded, removal of explicitly inverted pairs) and Props/C02d.lean proves that the two asymmetric walks are exactly the symmetric relation "
+         "(implicit_iff_related), i.e. a pair is added iff a non-ff writer and a reader share a bit (implicit_iff_bits), that explicit pairs are honoured, and that every order "
+         "topological for the result runs each writer of a bit before each reader unless explicitly inverted (schedule_respects_bits); tied to the code by comparing the model's "
+         "final pairs and constraint_objs with _dag.all_constraints / constraint_objs exactly on five design families, the model input being extracted from the real metadata. "
+         "PARTIAL: OpenLoopCLPass is not modelled.",
          "Trusted: as C01; explicit U<U constraints are handled by the harness oracle (python), not by the Lean model; blocking FL interfaces / greenlets and OpenLoopCLPass outside the model.",
          "Lean 4 proof (verified schedule checker, Kahn with arbitrary oracle) + differential correspondence check", "DESIGN.md §5 C02"),
  'C07': ("Lean 4 theorems over the double-buffer model: the shadow buffer after the ff phase is the same for every permutation of the update_ff blocks (ff_perm, "
